@@ -11,6 +11,8 @@ case "$REPO/src" in */repo/src) ;; *) echo "repository path must end in /repo"; 
 fail=0
 for d in seeded/*/; do
   id=$(basename $d)
+  # SEEDS_FILTER: extended regular expression on the seed id (default: all)
+  if [ -n "$SEEDS_FILTER" ] && ! echo "$id" | grep -Eq "$SEEDS_FILTER"; then continue; fi
   checks=$(python3 -c "import json;print(' '.join(json.load(open('$d/meta.json'))['detected_by']))")
   git -C $REPO apply $HERE/$d/patch.diff || { echo "$id: PATCH DOES NOT APPLY"; fail=1; continue; }
   hit=""
